@@ -11,7 +11,7 @@ CHECK = dict(
                 thorough=dict(evaluations=150, events=2000000, distinct=40, cov={'sleep_interrupted': 10000, 'yield_interrupted': 50, 'C_SLEEPQ_WALK': 200000, 'C_SLEEPQ_POP_MIDDLE': 20000, 'C_RESUME_FOUND_STANDBY': 1, 'shutdown_sleeps': 200})),
     assumptions=['x86-TSO hardware', 'the "first scheduling round after the deadline" clause is decided on logical time by the in-library heap walker, and only in single-vCPU executions for the expired-sleeper part (several vCPUs write the coarse clock)',
                  'lost sleepers are decided in bounded-progress form (deadline passed > 2 s ago, nothing progresses for 5 s)'],
-    technique='runtime monitoring: sequence-stamped history of sleep/yield/interrupt calls checked online (at-most-once, not-to-a-later-call, never-early on CLOCK_BOOTTIME), guarded invariant walker over the sleep heap inside the scheduler, stuck detector, under ASan+UBSan / TSan / plain with stall points and CPU shapes',
+    technique='runtime monitoring: sequence-stamped history of sleep/yield/interrupt calls checked online (at-most-once, not-to-a-later-call, never-early on CLOCK_BOOTTIME), guarded invariant walker over the sleep heap inside the scheduler, stuck detector, under ASan+UBSan / TSan / plain with stall points and CPU shapes; plus a shutdown section in which a marked thread goes through every kind of blocking call (sleep, semaphore / mutex / condition waits, descriptor wait, pause-work-stealing scope) before its final sleeps',
     level_text='Held on the seeded executions actually run: no sleep returned 0 before its deadline, every -1/non-zero result carried the unique code of an interrupt sent to that thread, reported once, '
                'and never one whose send had returned before the call was made; after every mutation of the sleep heap all back-indices and the heap order were intact, and (single vCPU) no expired '
                'sleeper was left behind by a resume pass; all finite sleeps returned; shut-down threads failed with EPERM within the bound. Not a proof over all schedules.',
